@@ -36,7 +36,7 @@ class AnchorLost(Exception):
 
 
 DIRECTIVES = ("props", "attr", "result", "requires", "ensures", "decreases", "start", "loop", "loopstart",
-              "loopend", "before", "after", "closure", "noctl", "recommends")
+              "loopend", "before", "after", "closure", "noctl", "recommends", "tail")
 
 
 class Clause:
@@ -165,15 +165,15 @@ def _parse_directive(st, ln, auto):
         return tok, k, s
 
     kind = kw
-    if kw in ("requires", "ensures", "decreases", "start", "attr", "result", "props", "recommends"):
+    if kw in ("requires", "ensures", "decreases", "start", "attr", "result", "props", "recommends", "tail", "noctl"):
         rest = take_id(rest)
     elif kw == "loop":
         n, rest = take_int(rest)
         args["n"] = n
         rest = rest.lstrip()
-        sub = re.match(r"(invariant|decreases|attr)", rest)
+        sub = re.match(r"(invariant|decreases|attr|bind)", rest)
         if not sub:
-            raise ClauseError("line %d: loop N invariant|decreases|attr" % ln)
+            raise ClauseError("line %d: loop N invariant|decreases|attr|bind" % ln)
         kind = "loop_" + sub.group(1)
         rest = take_id(rest[sub.end():])
     elif kw in ("loopstart", "loopend"):
@@ -464,6 +464,15 @@ def splice_fn(text, fs: FnSpec):
         p = sh.body_open + 1
         eds.append(Edit(p, p, "\n%s    %s" % (base_ind, c.text), "S", c))
 
+    # before the tail expression of the body
+    for c in by_kind.get("tail", []):
+        j = skip_ws_back(m, sh.body_close)
+        if m[j] in ";{":
+            raise AnchorLost("%s: body has no tail expression" % fs.path)
+        p, _ = _stmt_start(m, j, sh.body_open + 1)
+        ind = _indent_at(text, p)
+        eds.append(Edit(p, p, "%s\n%s" % (c.text, ind), "S", c))
+
     # loops
     def loop_n(c):
         n = c.args["n"]
@@ -491,6 +500,13 @@ def splice_fn(text, fs: FnSpec):
             for c in cs:
                 eds.append(Edit(pos, pos, "%s        %s,\n" % (ind, c.text), "S", c))
         eds.append(Edit(pos, pos, ind, "S", None))
+    for c in by_kind.get("loop_bind", []):
+        lp = loop_n(c)
+        if lp["kw"] != "for":
+            raise AnchorLost("%s: loop %d is not a `for` loop (bind)" % (fs.path, c.args["n"]))
+        inm = re.search(r"\sin\s+", m[lp["start"]:lp["body_open"]])
+        pos = lp["start"] + inm.end()
+        eds.append(Edit(pos, pos, c.text.strip() + ": ", "S", c))
     for c in by_kind.get("loop_attr", []):
         lp = loop_n(c)
         ind = _indent_at(text, lp["start"])
